@@ -175,6 +175,8 @@ def world_to_json(world):
             out[p] = {"t": "f", "mode": e.get("mode", 0o644), **enc_bytes(e["data"])}
             if e.get("subst"):
                 out[p]["subst"] = True
+            if e.get("mtime") is not None:
+                out[p]["mtime"] = e["mtime"]
         else:
             out[p] = dict(e)
     return out
@@ -187,6 +189,8 @@ def world_from_json(js):
             out[p] = {"t": "f", "mode": e.get("mode", 0o644), "data": dec_bytes(e)}
             if e.get("subst"):
                 out[p]["subst"] = True
+            if e.get("mtime") is not None:
+                out[p]["mtime"] = e["mtime"]
         else:
             out[p] = dict(e)
     return out
@@ -213,6 +217,9 @@ def materialise(world, root):
     for p, e in items:
         if e["t"] == "d" and "mode" in e:
             os.chmod(os.path.join(root, p), e["mode"])
+    for p, e in items:
+        if e.get("mtime") is not None and e["t"] == "f":
+            os.utime(os.path.join(root, p), (e["mtime"], e["mtime"]))
 
 
 def read_world(root):
@@ -496,6 +503,9 @@ def run_breadlog(root, check=False, plan=None, knobs=None, binary=None):
         "SIM_TRACE": trace_path,
         "ASYNC_STD_THREAD_COUNT": str(knobs.get("threads", 2)),
     }
+    for k, v in (knobs.get("env") or {}).items():
+        if k not in env:
+            env[k] = v
     if os.environ.get("BLSIM_PROFILE_DIR"):
         env["LLVM_PROFILE_FILE"] = os.path.join(os.environ["BLSIM_PROFILE_DIR"], "bl-%p-%m.profraw")
     style = knobs.get("argv_style", "short")
